@@ -139,7 +139,7 @@ func init() {
 		}
 		runBND(c, r, "BND", fixFuncs(c, g, fs), nil, res)
 	}
-	registerFixture(fixtureCheck{Group: "bnd", Pkg: "bnd/bad", Run: bnd, Want: []string{"bnd/bad.Digits:buf[:n]#1", "bnd/bad.From:s[i:]#1", "bnd/bad.At:xs[n]#1"}})
+	registerFixture(fixtureCheck{Group: "bnd", Pkg: "bnd/bad", Run: bnd, Want: []string{"bnd/bad.Digits:", "bnd/bad.From:", "bnd/bad.At:"}})
 	registerFixture(fixtureCheck{Group: "bnd", Pkg: "bnd/good", Run: bnd})
 	ta := func(c *Ctx, r *Result, key string) {
 		g, fs := c.fixGraph(key)
@@ -160,6 +160,6 @@ func init() {
 	}
 	registerFixture(fixtureCheck{Group: "kind", Pkg: "kind/bad", Run: kind, Want: []string{"kind/bad.Count:Len#1", "kind/bad.Num:Float#1", "kind/bad.Get:Interface#1", "kind/bad.keys:MapKeys#1"}})
 	registerFixture(fixtureCheck{Group: "kind", Pkg: "kind/good", Run: kind})
-	registerFixture(fixtureCheck{Group: "lock", Pkg: "lock/bad", Run: lock, Want: []string{"lock/bad.Register:registry-access#1", "lock/bad.Compile:registry-noescape#1", "lock/bad.Leak:mu-exit"}})
+	registerFixture(fixtureCheck{Group: "lock", Pkg: "lock/bad", Run: lock, Want: []string{"lock/bad.Register:registry-access#1", "lock/bad.Compile:registry-noescape#1", "lock/bad.Leak:mu-exit", "lock/bad.Put:table-access#1"}})
 	registerFixture(fixtureCheck{Group: "lock", Pkg: "lock/good", Run: lock})
 }
